@@ -64,13 +64,28 @@ def mutations(nodes, rnd):
             for v, spec in sw["variables"].items():
                 m = copy.deepcopy(nodes)
                 tgt = m[i]["derive"]["parameter_sweep"]["variables"]
-                if isinstance(spec, list):
-                    k = rnd.randrange(len(spec))
-                    tgt[v] = list(spec)
-                    tgt[v][k] = spec[k] + 100
-                    out.append((f"sweep-domain:sequence-element-{'middle' if 3 <= k < len(spec) - 3 else 'edge'}", m, i))
+                if isinstance(spec, list) or (isinstance(spec, dict) and "values" in spec):
+                    seq = spec if isinstance(spec, list) else spec["values"]
+                    wrap = (lambda x: x) if isinstance(spec, list) else (lambda x: {"values": x})
+                    k = rnd.randrange(len(seq))
+                    new_seq = copy.deepcopy(list(seq))
+                    label = "sequence-element"
+                    if isinstance(seq[k], dict):
+                        # an element that is a mapping: change one leaf somewhere inside it
+                        where = rnd.choice(["gain", "opts.z", "opts.a.1.b"])
+                        if where == "gain":
+                            new_seq[k]["gain"] += 100
+                        elif where == "opts.z":
+                            new_seq[k]["opts"]["z"] += 1
+                        else:
+                            new_seq[k]["opts"]["a"][1]["b"] += 1
+                        label = "sequence-element-nested-leaf"
+                    else:
+                        new_seq[k] = seq[k] + 100
+                    tgt[v] = wrap(new_seq)
+                    out.append((f"sweep-domain:{label}-{'middle' if 3 <= k < len(seq) - 3 else 'edge'}", m, i))
                     m2 = copy.deepcopy(nodes)
-                    m2[i]["derive"]["parameter_sweep"]["variables"][v] = list(spec) + [7]
+                    m2[i]["derive"]["parameter_sweep"]["variables"][v] = wrap(copy.deepcopy(list(seq)) + [7])
                     out.append(("sweep-domain:sequence-length", m2, i))
                 elif "from_context" in spec:
                     tgt[v] = {"from_context": spec["from_context"] + "_2"}
